@@ -1,3 +1,6 @@
 pub mod c04;
 pub mod c14;
 pub mod c12;
+pub mod c17;
+pub mod c17_oracle;
+pub mod c17_types;
